@@ -65,6 +65,10 @@ G_GROUPS = {
     "w2a": ("G_undo_w2a.cfg", "wa", {"quick": None, "thorough": None}),
     "w2m": ("G_undo_w2m.cfg", "wm", {"quick": None, "thorough": None}),
     "w2x": ("G_undo_w2x.cfg", "wx", {"quick": None, "thorough": None}),
+    # flat wiggles from the empty root: 3 edits in 3 capture steps (e.g. ins a | ins b | del both), then U R U U U R R
+    "wz3t": ("G_undo_wz3t.cfg", "t", {"quick": None, "thorough": None}),
+    "wz3a": ("G_undo_wz3a.cfg", "a", {"quick": None, "thorough": None}),
+    "wz3m": ("G_undo_wz3m.cfg", "m", {"thorough": None}),
     "wf1x": ("G_undo_wf1x.cfg", "wx", {"quick": 100, "thorough": 4000}),
     "wf2x": ("G_undo_wf2x.cfg", "wx", {"thorough": 6000}),
     "wf2t": ("G_undo_wf2t.cfg", "wt", {"thorough": 4000}),
@@ -86,7 +90,7 @@ MULTI_GROUPS = {
     "mx": ("c3x", {"quick": 80, "thorough": 3000}),
 }
 TIERS = {
-    "quick": {"gen": ["c3t", "c3a", "c3m", "k4", "f2t", "f2a", "f2m", "c3x", "p2x", "f2x", "xk4", "w2t", "w2a", "w2m", "w2x", "wf1x"],
+    "quick": {"gen": ["c3t", "c3a", "c3m", "k4", "f2t", "f2a", "f2m", "c3x", "p2x", "f2x", "xk4", "w2t", "w2a", "w2m", "w2x", "wz3t", "wz3a", "wf1x"],
               "multi": ["mt", "ma", "mm", "mx"], "deep": 2, "deep_n": 400,
               "deepx": 1, "deepx_n": 150},
     "thorough": {"gen": list(G_GROUPS), "multi": list(MULTI_GROUPS), "deep": 12, "deep_n": 1500, "deepx": 6, "deepx_n": 1500},
